@@ -658,10 +658,10 @@ func (s *Store) openCollection(
 			return nil, erro
 		}
 
-		if storeSnapshotInit != nil {
-			storeSnapshotInit.Close()
-			storeSnapshotInit = nil
-		}
+		// The collection owns the LowerLevelInit snapshot and closes it
+		// when it is replaced by ss (or when the collection is closed);
+		// closing it here as well would drop a reference that belongs
+		// to other holders of the same store footer.
 
 		return ss, erro
 	}
